@@ -54,7 +54,7 @@ DESCRIPTION = {
     ],
     "required_probes": {
         "quick": ["insertion_sweep", "outside_dotdot", "outside_sibling_prefix", "outside_absolute", "outside_relative", "inside_served", "directory_of_root_file",
-                  "directory_f_is_root", "get_static_served", "get_outside", "os_error_fired", "root_moved", "chdir", "fs_mutated", "lineage_by_file", "literal_expandable_spelling"],
+                  "directory_f_is_root", "get_static_served", "get_outside", "os_error_fired", "root_moved", "chdir", "fs_mutated", "lineage_by_file", "literal_expandable_spelling", "two_path_parameters", "payload_shape_variant"],
         "thorough": ["outside_dotdot", "outside_sibling_prefix", "inside_served", "os_error_fired", "root_moved", "threaded_root_move_concurrent"],
     },
 }
@@ -323,6 +323,21 @@ def run_one(spec: dict) -> dict:
                 probe("two_path_parameters")
                 if "" in payload.values():
                     probe("two_path_parameters_one_empty")
+            if op.get("wrap") and payload:
+                # payload SHAPES: the path parameter not as a top-level member but inside a member that an object built
+                # from the payload might interpret (__dict__ replaces the attributes of a Namespace), possibly next to
+                # an innocent top-level value - judged from the response alone
+                inner = dict(payload)
+                if op["wrap"] == "dunder_dict":
+                    payload = {"__dict__": inner}
+                elif op["wrap"] == "dunder_dict_beside_inside":
+                    payload = {key: os.path.join(roots_before[0], "a.sql"), "__dict__": inner}
+                elif op["wrap"] == "nested":
+                    payload = {"args": inner, "params": {"__dict__": inner}}
+                elif op["wrap"] == "list_value":
+                    payload = {key: [spelled]}
+                lexical_target = None
+                probe("payload_shape_variant")
             if op.get("extra"):
                 payload.update(op["extra"])
             path_info = route + op.get("route_suffix", "")
@@ -349,7 +364,9 @@ def run_one(spec: dict) -> dict:
             allowed_roots = list(dict.fromkeys([*roots_before, *during, *roots_after]))
             if len(during) > 1:
                 probe("threaded_root_move_concurrent")
-            if route == "/directory" and (op.get("key") is None or (payload is not None and "" in payload.values())):
+            # (a request without a usable path parameter - none, an empty one, or one hidden in a member the server does not
+            # read - is answered with the configured default directory)
+            if route == "/directory" and (op.get("key") is None or op.get("wrap") or (payload is not None and "" in payload.values())):
                 allowed_roots.append(os.path.normpath(os.environ.get("SQLLINEAGE_DIRECTORY") or _default_directory()))
         # --- oracle
         text = body.decode("utf-8", "replace")
@@ -721,7 +738,9 @@ def gen_request(g, threaded=False):
     if key is not None:
         op["path"] = gen_path(g, any_root=threaded)
         g2 = stream(g.randrange(2 ** 48), "second-param")
-        if g2.random() < 0.12:
+        if g2.random() < 0.06:
+            op["wrap"] = g2.choice(["dunder_dict", "dunder_dict", "dunder_dict_beside_inside", "nested", "list_value"])
+        elif g2.random() < 0.12:
             empty = {"start": "cwd", "segs": [], "abs": False, "literal": ""}
             r2 = g2.random()
             if r2 < 0.35:
